@@ -64,8 +64,33 @@ type Block struct {
 	Text  string // heading / paragraph text (single line)
 	Items []Item
 	Rows  [][]Cell
-	Head  Head // table: which rows / cells the source marks as header
+	Head  Head  // table: which rows / cells the source marks as header
+	At    Place // table of a worksheet: where on the sheet it lies
 }
+
+// Place says where on its worksheet an authored table lies (XLSX only; the other formats have no
+// coordinates). The zero value is the table with its first cell in A1 and nothing else on the sheet,
+// which is all the writer did before the field existed. A sheet's table is its used range (the first
+// and the last cell of an authored grid are never empty), so the position never changes what the
+// table IS: the same rows x columns of cell texts, the first authored row being the header line.
+//
+//   - Row, Col: number of blank rows above / blank columns left of the table (a title that was
+//     removed, a spacer row, a report that starts in B3).
+//   - Blank: how the blank rows above are spelled. 0: no <row> elements at all (sheetData starts at
+//     r="Row+1"; ECMA-376 18.3.1.73: rows without content need not be written); 1: empty
+//     <row r="k"></row> elements (a row that only carries a height or a style); 2: rows of value-less
+//     cells <c r="A1"></c> (18.3.1.4: a cell without <v>/<is> is blank — what a formatted but empty
+//     cell looks like), and the same value-less cells left of the table in its own rows.
+//   - Below: the same kind of blank row follows the table, and (Blank 2) a value-less cell follows the
+//     last cell of every table row.
+type Place struct {
+	Row, Col int
+	Blank    int
+	Below    bool
+}
+
+// PlaceBlanks is the number of spellings of a blank row the XLSX writer has.
+const PlaceBlanks = 3
 
 // Head says which part of an authored table the source marks as its header. The zero value is the
 // spelling the writers had before the field existed (HTML: row 0 in <thead> with <th> cells, no
